@@ -141,7 +141,7 @@ def render(e, ind=0, multiline=False):
         ms = " ".join("%s %s" % (m[0] or "_", mgr_text(m)) for m in e[1])
         return "(with [" + ms + "]" + body(e[2]) + ")"
     if k == "boom":
-        return {"plain": "(BOOM)", "macro-arg": "(wrap (BOOM))", "macro-template": "(mboom)", "shared-atom": "(mshared)"}[e[1]]
+        return {"plain": "(BOOM)", "macro-arg": "(wrap (BOOM))", "macro-template": "(mboom)", "shared-atom": "(mshared)", "py-twice": '(py "BOOM()")'}[e[1]]
     if k == "lfor":
         return "(lfor " + e[1] + " " + r(e[2]) + (" :if " + r(e[3]) if e[3] is not None else "") + " " + r(e[4]) + ")"
     raise ValueError("unknown form %r" % (k,))
